@@ -1,6 +1,7 @@
 package main
 
 import (
+	"io"
 	"encoding/json"
 	"errors"
 	"fmt"
@@ -219,6 +220,12 @@ func (s *St) status() *status.Status {
 
 func (s *St) err() error {
 	if s.Plain {
+		switch s.Msg {
+		case "EOF": // what the client records when a write races with the server tearing the stream down
+			return io.EOF
+		case "wrapped EOF":
+			return fmt.Errorf("sending: %w", io.EOF)
+		}
 		return errors.New("not a status: " + s.Msg)
 	}
 	return s.status().Err()
